@@ -53,3 +53,8 @@ Lemma pinned_securekey_refuted : exists key msg, all_released_zero (rel_get_hmac
 Proof. exists [1;2;3], [1]. vm_compute. reflexivity. Qed.
 Lemma pinned_base36_refuted : exists d, all_released_zero (rel_decode_secure false d true) = false.
 Proof. exists [1;2;3]. vm_compute. reflexivity. Qed.
+
+Lemma secret_reveal_zero cb plain : all_released_zero (rel_secret_reveal true cb plain) = true.
+Proof. unfold rel_secret_reveal. rewrite Bool.andb_false_r. apply no_raw_zero. constructor; [cbn; discriminate|constructor]. Qed.
+Lemma pinned_secret_reveal_refuted : exists plain, all_released_zero (rel_secret_reveal false true plain) = false.
+Proof. exists [1; 2; 3]. vm_compute. reflexivity. Qed.
